@@ -416,8 +416,7 @@ def one(s, cls, rec, case):
 
 
 def pin_simple(rng, p):
-    return rng.choice([f"{p}", f"{p}-{p + rng.randint(1, 9)}", f"{p}, {p + 3}", f"{p}-{p + 2}, {p + 5}",
-                       f"{p}, n. {rng.randint(1, 9)}", f"{p}:{rng.randint(1, 30)}"])
+    return gen.pinshape(rng, p)
 
 
 def check_short(rng, rec):
@@ -427,6 +426,8 @@ def check_short(rng, rec):
     vol, p = rng.randint(1, 999), rng.randint(1, 1500)
     c2 = rng.choice(["", ","])
     pin = pin_simple(rng, p)
+    while not pin[0].isdigit():
+        pin = pin_simple(rng, p)      # the page group of a short form is the first number after 'at'
     first = re.match(r"\d+", pin)[0]
     lead = rng.choice(["", "See ", "Later, in "])
     s = f"{lead}{name}, "
